@@ -78,11 +78,26 @@ type Cal struct {
 	QueryResult []caldav.CalendarObject
 	// ListOnQuery: answer a query with the objects stored under the path (discovery chains)
 	ListOnQuery bool
+	// PrincipalFor: principal path of a user named in the request context (multi-user deployments)
+	PrincipalFor func(user string) string
+}
+
+// UserKey: a request context may name the authenticated user (set by the front of a multi-user deployment); PrincipalFor then
+// maps it to that user's principal path.
+type userKey struct{}
+
+var UserKey = userKey{}
+
+func principalOf(ctx context.Context, def string, f func(string) string) string {
+	if u, ok := ctx.Value(UserKey).(string); ok && u != "" && f != nil {
+		return f(u)
+	}
+	return def
 }
 
 func (b *Cal) CurrentUserPrincipal(ctx context.Context) (string, error) {
 	b.add("CurrentUserPrincipal", "", nil)
-	return b.Principal, nil
+	return principalOf(ctx, b.Principal, b.PrincipalFor), nil
 }
 func (b *Cal) CalendarHomeSetPath(ctx context.Context) (string, error) {
 	b.add("CalendarHomeSetPath", "", nil)
@@ -219,11 +234,13 @@ type Card struct {
 	// results of QueryAddressObjects
 	QueryResult []carddav.AddressObject
 	ListOnQuery bool
+	// PrincipalFor: principal path of a user named in the request context (multi-user deployments)
+	PrincipalFor func(user string) string
 }
 
 func (b *Card) CurrentUserPrincipal(ctx context.Context) (string, error) {
 	b.add("CurrentUserPrincipal", "", nil)
-	return b.Principal, nil
+	return principalOf(ctx, b.Principal, b.PrincipalFor), nil
 }
 func (b *Card) AddressBookHomeSetPath(ctx context.Context) (string, error) {
 	b.add("AddressBookHomeSetPath", "", nil)
